@@ -8,6 +8,7 @@ Oracle: c1 = canonicalise(x) is accepted by the strict reader and canonicalise(c
 
 from __future__ import annotations
 
+import collections
 import itertools
 import os
 import re
@@ -282,6 +283,30 @@ def tool_roundtrips(text: str, lenient: bool, root: str):
 _ROOT = {"dir": None, "n": 0}
 
 
+STATS_EXTRA = collections.Counter()
+
+
+def fence_inserted(text: str):
+    """Up to two copies of a text that holds a literal zone, each with one extra line inside a zone that looks like that
+    zone's fence at some other indentation. Whether such a line is content or closes the zone is the reader's decision; if
+    the text is accepted at all, its canonical text must be a fixed point like any other (pure function of the text)."""
+    import random
+    import zlib
+
+    lines = text.split("\n")
+    idx = [i for i, ln in enumerate(lines) if re.fullmatch(r" *`{3,}[^`]*", ln)]
+    if len(idx) < 2:
+        return
+    rnd = random.Random(zlib.crc32(text.encode("utf-8", "replace")))
+    for _ in range(2):
+        j = rnd.randrange(0, len(idx) - 1, 2) if len(idx) > 2 else 0
+        a, b = idx[j], idx[j + 1]
+        fence = re.search(r"`{3,}", lines[a]).group(0)
+        out = list(lines)
+        out.insert(rnd.randint(a + 1, b), " " * rnd.randrange(0, 9) + fence + rnd.choice(["", "", "", "x"]))
+        yield "\n".join(out)
+
+
 def oracle(doc, sp, text, info, with_tools=None):
     fails = []
     res = api_roundtrip(text)
@@ -290,6 +315,13 @@ def oracle(doc, sp, text, info, with_tools=None):
         return []
     if res[0] == "fail":
         fails.append(res[1:])
+    for m in fence_inserted(text):
+        r2 = api_roundtrip(m, "zone-fence-inserted")
+        STATS_EXTRA["fence_inserted"] += 1
+        if r2[0] != "rejected":
+            STATS_EXTRA["fence_inserted_accepted"] += 1
+        if r2[0] == "fail":
+            fails.append(r2[1:])
     _ROOT["n"] += 1
     if with_tools if with_tools is not None else (_ROOT["n"] % 4 == 0):
         with scratch_dir() as root:
@@ -304,7 +336,11 @@ def oracle(doc, sp, text, info, with_tools=None):
 def shard(ctx: Ctx, sh: int, nshards: int, per_shard: int) -> Stats:
     inside = sh % 8 == 7  # one shard in eight generates inside the known classes
     avoid = frozenset() if inside else AVOID
-    return docprop.shard_impl(ctx, sh, per_shard, oracle, dict(DOC_KW, avoid=avoid), n_lenient=ctx.pick(1, 2))
+    STATS_EXTRA.clear()
+    st = docprop.shard_impl(ctx, sh, per_shard, oracle, dict(DOC_KW, avoid=avoid), n_lenient=ctx.pick(1, 2))
+    for k, v in STATS_EXTRA.items():
+        st.labels["zone_" + k] += v
+    return st
 
 
 # ------------------------------------------------------------------------------------------------ token sequences
